@@ -82,7 +82,8 @@ class C01(Check):
         self.info = T.write_c01(wntr)
         ctx.cov["updater_registrations"] = T.write_updater(wntr)
         ctx.cov["store_results_trace"] = T.write_store(wntr)
-        ctx.cov["zoo_rows"] = {k: v["rows"] for k, v in self.info.items()}
+        ctx.cov["zoo_rows"] = {k: self.info[k]["rows"] for k in ("DD", "PDD")}
+        ctx.cov["links_for_node_filter"] = self.info.get("links_for_node")
 
     # ------------------------------------------------------------------ static rows of random networks
     def _static_rows(self, ctx, wntr, specs):
